@@ -1,4 +1,5 @@
 pub mod crash;
+pub mod dump;
 pub mod hist;
 pub mod mondir;
 pub mod report;
